@@ -15,7 +15,7 @@ import (
 	"verifharness/hx"
 )
 
-// runLimit: `#cfg limit <n>`; lines l.call <cancelled> <k>… | l.cancel <i> | l.base <i> ok|err <c> <id>.
+// runLimit: `#cfg limit <n>`; lines l.call <cancelled> <m|s|c> <k>… | l.cancel <i> | l.base <i> ok|okn|err <c> <id>.
 // runQueue: `#cfg queue <cap> <dur>`; lines q.clock <t> | q.call … | q.cancel <i> | q.base <i> ok|err <c> <id>.
 func runLimitOrQueue(t *testing.T, script []string, gen *hx.Rand) (*caseResult, []string) {
 	res := &caseResult{}
@@ -39,17 +39,23 @@ func runLimitOrQueue(t *testing.T, script []string, gen *hx.Rand) (*caseResult, 
 		a := newArena()
 		w := &world{a: a, res: res, wasDone: map[int]bool{}, delivered: map[int]int{}}
 		clk := &fakeClock{}
+		sink := newMemBackend() // limiter: read back by ReplicateSingle / ReplicateComposite
+		kinds := map[int]string{}
 		now := 0
 		pfx := "l"
 		if queue {
 			pfx = "q"
 			w.kind = "q"
 			ec := digest.NewExistenceCache(clk, keyFormat, p1, time.Duration(p2)*time.Second, eviction.NewLRUSet[string]())
-			w.repl = replication.NewQueuedBlobReplicator(newMemBackend(), gatedBase{a}, ec)
+			source := newMemBackend() // holds every object: ReplicateSingle / ReplicateComposite read it
+			for k := 0; k < 8; k++ {
+				source.data[k] = 1
+			}
+			w.repl = replication.NewQueuedBlobReplicator(source, gatedBase{a}, ec)
 			w.emit(fmt.Sprintf("q.init %d %d", p1, p2), "ok")
 		} else {
 			w.kind = "l"
-			w.repl = replication.NewConcurrencyLimitingBlobReplicator(gatedBase{a}, newMemBackend(), semaphore.NewWeighted(int64(p1)))
+			w.repl = replication.NewConcurrencyLimitingBlobReplicator(gatedBase{a}, sink, semaphore.NewWeighted(int64(p1)))
 			w.emit(fmt.Sprintf("l.init %d", p1), "ok")
 		}
 		type success struct {
@@ -78,6 +84,12 @@ func runLimitOrQueue(t *testing.T, script []string, gen *hx.Rand) (*caseResult, 
 					if ownOK[c.id] == nil {
 						res.fail("the limiting replicator reported success although the caller's base call did not succeed", fmt.Sprintf("caller %d", c.id))
 					}
+					if kinds[c.id] != "m" {
+						if _, ok := sink.data[c.keys[0]]; !ok {
+							res.fail("ReplicateSingle/ReplicateComposite of the limiting replicator succeeded although the sink does not hold the object",
+								fmt.Sprintf("caller %d object %d", c.id, c.keys[0]))
+						}
+					}
 				case c.result == nil && queue:
 					for _, k := range c.keys {
 						ok := false
@@ -105,6 +117,11 @@ func runLimitOrQueue(t *testing.T, script []string, gen *hx.Rand) (*caseResult, 
 					if baseSeen[c.id] {
 						res.fail("a caller returned the context's error although its base call had been made", fmt.Sprintf("caller %d", c.id))
 					}
+				case ce == "err 13 0" && !queue && kinds[c.id] != "m":
+					if _, ok := sink.data[c.keys[0]]; ok || ownOK[c.id] == nil {
+						res.fail("ReplicateSingle/ReplicateComposite of the limiting replicator reported INTERNAL although the sink holds the object or base had not succeeded",
+							fmt.Sprintf("caller %d object %d", c.id, c.keys[0]))
+					}
 				default:
 					id, _ := strconv.Atoi(strings.Fields(ce)[2])
 					if owner, ok := w.delivered[id]; !ok || owner != c.id {
@@ -124,19 +141,21 @@ func runLimitOrQueue(t *testing.T, script []string, gen *hx.Rand) (*caseResult, 
 				}
 				now = n(1)
 				clk.set(now)
-			case f[0] == pfx+".call" && len(f) >= 3:
+			case f[0] == pfx+".call" && len(f) >= 4 && (f[2] == "m" || ((f[2] == "s" || f[2] == "c") && len(f) == 4)):
+				// <pfx>.call <cancelled> <m|s|c> <k>…: ReplicateMultiple / ReplicateSingle / ReplicateComposite
 				var ks []int
-				for i := 2; i < len(f); i++ {
+				for i := 3; i < len(f); i++ {
 					ks = append(ks, n(i))
 				}
 				ks = sortedUnique(ks)
 				w.phase++
-				c := w.spawn(ks, f[1] == "1")
+				c := w.spawn(f[2], ks, f[1] == "1")
+				kinds[c.id] = f[2]
 				c.started = now
 				if queue {
 					w.emit(fmt.Sprintf("q.call %s %d %s", f[1], now, showKeys(ks)), fmt.Sprintf("ok %d", c.id))
 				} else {
-					w.emit(fmt.Sprintf("l.call %s %s", f[1], showKeys(ks)), fmt.Sprintf("ok %d", c.id))
+					w.emit(fmt.Sprintf("l.call %s %s %s", f[1], f[2], showKeys(ks)), fmt.Sprintf("ok %d", c.id))
 				}
 				after(line)
 			case f[0] == pfx+".cancel" && len(f) == 2:
@@ -164,6 +183,13 @@ func runLimitOrQueue(t *testing.T, script []string, gen *hx.Rand) (*caseResult, 
 					err = faultErr(n(3), n(4))
 					w.delivered[n(4)] = g.caller
 				} else {
+					if f[2] == "okn" && !queue {
+						word = "okn" // base reports success without having copied
+					} else if !queue {
+						for _, k := range g.keys {
+							sink.data[k] = 1
+						}
+					}
 					ownOK[g.caller] = append([]int{-1}, g.keys...)
 					successes = append(successes, success{g.keys, now})
 				}
@@ -209,7 +235,12 @@ func runLimitOrQueue(t *testing.T, script []string, gen *hx.Rand) (*caseResult, 
 					if gen.Chance(1, 8) {
 						cn = 1
 					}
-					line = fmt.Sprintf("%s.call %d %s", pfx, cn, showKeys(ks))
+					kind := "m"
+					if gen.Chance(1, 2) {
+						kind = []string{"s", "c"}[gen.Intn(2)]
+						ks = ks[:1]
+					}
+					line = fmt.Sprintf("%s.call %d %s %s", pfx, cn, kind, showKeys(ks))
 				case x < 75 && len(atBase) > 0:
 					i := atBase[gen.Intn(len(atBase))]
 					if gen.Chance(1, 4) {
@@ -217,6 +248,9 @@ func runLimitOrQueue(t *testing.T, script []string, gen *hx.Rand) (*caseResult, 
 						line = fmt.Sprintf("%s.base %d err %d %d", pfx, i, gen.PickInt(14, 13, 1), fid)
 					} else {
 						line = fmt.Sprintf("%s.base %d ok", pfx, i)
+						if !queue && gen.Chance(1, 6) {
+							line = fmt.Sprintf("l.base %d okn", i)
+						}
 					}
 				case x < 88 && len(live) > 0:
 					line = fmt.Sprintf("%s.cancel %d", pfx, live[gen.Intn(len(live))])
